@@ -28,6 +28,17 @@ def raw(shape, g, a, b):
     return a + 0.0 * g
 
 
+def mk_partial(shape, b):
+    """only the LAST coefficient has a default in the signature: a defaults to 1, b to its declared value"""
+    if shape == "inc":
+        def f(x, a, b=b):
+            return a + b * x * x / (1.0 + x * x)
+    else:
+        def f(x, a, b=b):
+            return a + b / (1.0 + x * x)
+    return f
+
+
 def mk_func(shape, a, b, with_defaults):
     if shape == "inc":
         if with_defaults:
@@ -85,6 +96,9 @@ def build(case):
             d = DependenceFunction(mk_func(shape, a, b, False))
             d.parameters = {"a": a, "b": b} if shape != "const" else {"a": a}
             theta_funcs[n] = (lambda g, s=shape, a=a, b=b: raw(s, g, a, b))
+        elif variant == "partial_defaults":
+            d = DependenceFunction(mk_partial(shape if shape != "const" else "dec", b))
+            theta_funcs[n] = (lambda g, s=(shape if shape != "const" else "dec"), b=b: raw(s, g, 1.0, b))
         elif variant == "default1":
             # coefficients default to 1 when the signature has no defaults
             d = DependenceFunction(mk_func(shape, a, b, False))
@@ -228,7 +242,7 @@ def run_case(case):
 def main(ctx):
     ctx.rule = ("complete product: template family (10) x every partition of its parameters into fixed/dependent "
                 "(dependent set non-empty) x dependence shape per dependent parameter {inc, dec, const} x coefficient "
-                "source {signature defaults, assigned parameters, default 1, chained through another DependenceFunction, location exactly 0 at g=0} "
+                "source {signature defaults, assigned parameters, default 1, chained through another DependenceFunction, location exactly 0 at g=0, defaults for the trailing coefficients only} "
                 "x method {pdf, cdf, icdf, draw_sample} x given kind {vector/vector, float, numpy scalar, length-1 "
                 "array, scalar given with vector x}. evaluations = method calls; a case is non-trivial if the "
                 "conditional cdf moves by > 1e-3 between the smallest and the largest conditioning value.")
@@ -246,7 +260,7 @@ def main(ctx):
                         if any(r in ("loc", "mu", "vmu") for n_, r in zip(names, roles) if n_ in dep_names):
                             variants += ["zero_at_origin"]
                         if all(r not in ("loc",) for r in roles):
-                            variants += ["default1"]
+                            variants += ["default1", "partial_defaults"]
                     for v in variants:
                         cases.append({"family": fam, "dependent": dict(zip(dep_names, assign)), "variant": v})
                         ctx.axis("family", zoo.SHORT[fam])
